@@ -75,9 +75,38 @@ PROPS = {
                         "map entries are printed in iteration order on both sides; the order itself is not observable and is compared as a set",
                         "strconv.AppendInt/AppendUint agree with itoa/utoa of Base/GoNum.v (tested by every case with an integer)"],
     },
+    "C05": {
+        "run": "Run.Run_C05",
+        "rule": "per rule (phone, email, idcard, int, float, in, include, ints, unique, prefix, suffix, year, year2month, date, datetime, re, ip, ipv4, ipv6, "
+                "json, file, dir): members of the language, single-character edits of members (insert / delete / substitute over digits, letters, CJK, "
+                "punctuation, separators, quotes, control bytes, invalid UTF-8) so near-misses are dense, double edits and random strings; numeric and "
+                "slice inputs for in/int/ints/float/unique; separator triples over punctuation incl. the empty separator; regexes with escaped quotes, "
+                "alternation and commas; options protected by quotes; through valid.Var and a struct field; every instance carries a unique marker; "
+                "plus valid.GetTimeFmt for all 64 masks x 0..3 separators. The independent verdict is computed inside Coq (Spec/FormatSpec.v) or, for the "
+                "oracle-backed rules, by the harness's own direct standard-library call. distinct cell = (rule, Go type of the value, verdict, a "
+                "rule-specific shape feature).",
+        "trusted": ["translator: the regular expressions of valid/init.go as regexp/syntax trees, rule table", 
+                    ORACLES + "net.ParseIP, time.Parse, regexp.MatchString (user patterns), json.Valid, os.Stat; strconv.FormatFloat for renderings",
+                    "correspondence: Go driver c05.go + walkcommon.go, Run/Run_C05.v, Run/Run_Walk.v, bin/check"],
+        "assumptions": ["PARTIAL: for ip*, dates, re, json, file, dir the accepted language is the standard library's; findings C05-datetime-fraction and C05-ipv4-mapped are where it differs from the documented one",
+                        "Go's regexp engine agrees with the Brzozowski matcher on the repository's patterns (tested by every string case)"],
+    },
 }
 
 LEVELS = {
+    "C05": {
+        "text": "Theorems in Coq: the five regular expressions of the repository (regenerated from the source on every run) accept exactly the languages of "
+                "hand-written recognisers, for every string (e-mail included: words separated by single separators, one '@', a '.' in the domain); the "
+                "rule functions write a clause exactly when the value is outside the language (int/float kind dispatch, in/include option extraction, "
+                "ints separators, unique as NoDup, prefix/suffix with protecting quotes stripped); the date layout builder equals the documented layout "
+                "for every mask and separator triple; the re pattern extraction returns the text between the protecting quotes. Oracle-backed rules: "
+                "wiring proved, acceptance delegated.",
+        "design_ref": "DESIGN.md section 5, C05",
+        "note": "PARTIAL: ip/ipv4/ipv6, year/year2month/date/datetime, re, json, file, dir delegate membership to the standard library (oracles, listed); "
+                "in-builder round trip proved for options without quotes/slashes only (quoted options: correspondence). Trusted: Coq kernel, translator "
+                "(regex trees), correspondence harness.",
+        "technique": "Coq proof (regular-language equivalences via Brzozowski derivatives and a two-state scanner; case analysis) + correspondence evaluated in Coq",
+    },
     "C20": {
         "text": "Theorems in Coq: (1) an RFC 8259 recursive-descent parser (white space, escapes, number grammar) parses the compact printing of every "
                 "document whose strings need no escapes and whose numbers are valid literals back to that document (unbounded; decimal renderings of all "
